@@ -69,6 +69,14 @@ def run(tier):
             else:
                 print("WARNING C08: a recorded trace of %s buffering is not a behaviour of IncHash.tla although all results agree - update the specification: %s" % (m, json.dumps(rej)[:300]))
                 ck.cov["model_drift_traces"] = ck.cov.get("model_drift_traces", 0) + 1
+        else:
+            def _corrupt_inc(evs):
+                for e in evs:
+                    if e.get("ev") == "final" and e.get("eq") is True:
+                        e["eq"] = False
+                        return "a final result equal to the one-shot value is recorded as different"
+                return None
+            binding_selftest(ck, "IncHashTrace", "IncHashTrace_%s_%d" % (mode, key), tr, _corrupt_inc, "inchash trace " + m, timeout=1800)
         ntr += runs
         ck.cov["evaluations"] += nev
     _apalache(ck)
